@@ -11,6 +11,7 @@ package main
 //   g <k> <hexseq>:<count> ...        MakeDeBruijnGraph(k), Push each read, nodes/weights/Nexts/Previouses,
 //                                     HasCycle, HaviestPath, LongestConsensus(id, 0)
 //   conc <g> <r> | <sub-case> | ...   the operations above from g goroutines at the same time (c19_conc.go)
+//   gh <k> <step> ... / kh <W> <k> <sparse> <step> ...   histories of mutators and queries on ONE object (c19_hist.go)
 // Results are described next to each operation in Exec.
 
 import (
@@ -328,6 +329,7 @@ func (c19) Gen(rng *rand.Rand, tier string, emit func(string)) {
 	c19GenMore(rng, n, emit)
 	c19GenKM(rng, n, emit)
 	c19GenConc(rng, tier, emit) // last: the cases above keep their PRNG draws
+	c19GenHist(rng, tier, emit) // fourth pass: histories on one object (after conc: every earlier case keeps its draws)
 }
 
 // one random graph case: k, reads derived from a template, counts
@@ -665,6 +667,10 @@ func (c19) Exec(c string) (string, []Fail) {
 		// ------------------------------------------------------------------------------------
 		case f[0] == "km" && len(f) >= 9:
 			return c19ExecKM(f, fail)
+		case f[0] == "gh" && len(f) >= 3: // histories on one graph object (c19_hist.go)
+			return c19ExecHist(f, fail)
+		case f[0] == "kh" && len(f) >= 5: // histories on one KmerMap object
+			return c19ExecKH(f, fail)
 		case f[0] == "gf" && len(f) >= 3:
 			// result: mw=<MaxWeight> len=<Len> followed by the result of g on the filtered graph
 			k, e1 := strconv.Atoi(f[1])
